@@ -5,6 +5,9 @@ func init() {
 		ID:    "C13",
 		Title: "Errors name the line (and file) of the offending construct",
 		Rules: []string{
+			"R-EVALORDER: no composite literal of the parser reads the current/next token in one element and calls a token-consuming parser method in another (unspecified evaluation order)",
+			"R-LEXINPUT: lexer.New stores its argument as the input unchanged and every caller hands it the text it was given (a parameter handed through, or a file's content as read)",
+			"R-PATHAPI: a file's content is read and passed on unmodified (no trimming: reported lines are lines of the file)",
 			"R-ERRLINE: every ast.Node's Line() is ErrorLine() of its own Token; every AST node the parser builds takes its Token from the parser's current token; every parser.newError call passes ErrorLine() of a token; parser errors carry p.filepath (set to the parsed file's absolute path), evaluator errors node.Line() and ctx.AbsPath (the template's absolute path); loader errors about a component or insert carry that construct's Line()",
 			"R-TOKPOS: ErrorLine = Pos.EndLine + 1; line counters are advanced in one place; every token takes its end from the last consumed byte",
 		},
@@ -12,6 +15,9 @@ func init() {
 		NotDecided:  "TODO",
 		Assumptions: trustedBase,
 		Run: func(m *Model, s *Sink) {
+			m.RunEvalOrder(s, "R-EVALORDER")
+			m.RunLexInput(s, "R-LEXINPUT")
+			m.RunPathAPI(s, "R-PATHAPI") // the text of a template file reaches the lexer unmodified: lines are counted in the file's own text
 			m.RunErrLine(s, "R-ERRLINE")
 			m.RunTokPos(s, "R-TOKPOS")
 			s.RequireMin("R-ERRLINE", 80, "34 Line() methods, ~40 AST constructions, ~25 parser error sites, path clauses")
